@@ -14,6 +14,7 @@ import Wax.Partition
 import Wax.Proofs.Exhaustive
 import Wax.Cmd.Frag2
 import Wax.Cmd.Build
+import Wax.Cmd.Match
 import Wax.Unicode
 import Wax.SemSpec
 import Wax.RuleSpec
@@ -182,6 +183,9 @@ def handle (line : String) : String :=
     match parse (unhex h) with
     | .err _ => "err"
     | .ok t => cmdF t
+  | ["M", e, p] => cmdM e p        -- captures of Glob::matched (Re.exec on Re.hirNorm)
+  | ["M0", e, p] => cmdM0 e p      -- same without the regex-syntax normalisation (plain leftmost-first on the printed pattern)
+  | ["N", e] => cmdN e             -- the normalised pattern, printed
   | _ => "bad-op"
 
 partial def loop (h : IO.FS.Stream) : IO Unit := do
